@@ -23,12 +23,21 @@ CHECKS = {
  'C17': dict(text='MC: product automata of the generic algorithms (standard and extracted from the code) and positional weighted-sum automata for ISBN-10/ISSN/EAN (Weighted.tla) prove single-substitution / adjacent-swap detection for all numbers; TRACE: exhaustive neighbourhood (every position x every same-class character, every adjacent pair of different digits) of corpus + synthesised valid numbers of the 30 bound modules recorded from the code; TLC checks that each edit is one the property talks about and that it was rejected (Trace_Typo.tla).',
              note='Module list and exclusions (with reasons) in bindings/single_error.json.',
              tech='TLC model checking of product automata + TLC trace validation of exhaustive neighbourhoods', ref='DESIGN.md §4 C17'),
+ 'C08': dict(text='Convert.tla holds the conversion table (25 rows) with a positional embedding relation per row. For valid source numbers (corpus + synthesised) in compact, space- and hyphen-separated presentations and under the options (issue codes, regions) the driver records the conversion, the TARGET validator\'s verdict on the result and the inverse conversion; TLC judges K0 (converts, or refuses where documented), K1 (valid in the target format), K2 (embeds the same identity), K3 (inverse undoes it), K4 (independent of separators; session state).',
+             note='Embedding relations were read off the functions\' docstrings; targets without a validator in the library are listed in the spec (NoTarget).',
+             tech='TLA+ conversion table with per-row relations (Convert.tla) + TLC trace validation', ref='DESIGN.md §4 C08'),
+ 'C09': dict(text='Dispatch.tla states each (wrapper, constituent) relation of the property: EU VAT iff the member state\'s validator accepts the projection (recomputed by the spec) with prefix re-attachment, VATIN superset with equal result, ordered unions (us.tin, be.ssn, th.tin, ro.cf) with guess_type, es.nif superset, IBAN = generic and national, guess_country set equality, get_cc_module alias resolution. The driver records wrapper and constituent outcomes on valid constituent numbers of every member state / sub-type (plus numbers synthesised for every admitted length), edits, prefix/case variants and foreign numbers under each prefix, in a process whose dispatch caches are warm; TLC judges. MC stage: the dispatch mechanism of Runtime.tla and its hazard variant.',
+             note='Inputs are ASCII so that the projection is self-contained in the spec.',
+             tech='TLA+ wrapper/constituent relations (Dispatch.tla) + TLC trace validation; TLC model checking of the dispatch mechanism', ref='DESIGN.md §4 C09'),
  'C10': dict(text='NumDB.tla defines the lookup declaratively (shortest matching length wins, properties of all matches of that length merged in file order, children searched in the rest, unmatched rest one property-less part). TLC (1) model-checks Lossless/ShortestWins/MergeAll/UnmatchedIsOnePart on all small registries (bounded-exhaustive), (2) generates larger well-formed registries that the driver writes out as file text for the real numdb.read(), (3) re-evaluates every recorded lookup (generated registries and the 17 shipped registries, parsed independently) and compares (clauses L1 L2 L3).',
              note='Well-formedness is part of the generator; the independent parser/serialiser (harness/vlib/ndb.py) is trusted.',
              tech='TLC bounded-exhaustive model checking of the declarative lookup + TLC-generated registries replayed into numdb + trace validation of recorded lookups', ref='DESIGN.md §4 C10'),
  'C11': dict(text='Exhaustive over the finite data: one event per non-comment line of the 17 registry files (raw text + what numdb\'s parser made of it), re-read by TLC with the line grammar of NumDBFile.tla (R1 understood completely, R2 well-formed, R2n consistent nesting as session state); one reach event per entry (R3; sampled to 4000 per file in quick); consumer witnesses built BY THE SPEC (Gen_Witness.tla: an IBAN per country structure with Mod 97-10 check digits, an ISBN-13 per publisher range with EAN check digit) plus GS1 element strings and postal codes, replayed into iban/isbn/gs1_128/at.postleitzahl (W1 W2).',
              note='Not every consumer has a witness builder yet (banks, locations, tax offices are covered by R3 through numdb only).',
              tech='TLC trace validation with a TLA+ line grammar; TLC-generated consumer witnesses replayed into the code', ref='DESIGN.md §4 C11'),
+ 'C12': dict(text='Sessions per (module, valid number): every getter the web application would discover, on the canonical number and other presentations, under several system dates; valid numbers are corpus + synthesised neighbours + numbers synthesised for chosen dates (leap days in/out of leap years, century boundaries, day/month 00, unknown registry prefixes). TLC judges T1 (documented kind or ValidationError), T2 (real Gregorian date that agrees with the digits under the national layouts, month/day offsets and century rules written out in BirthDates.tla for 22 formats), T3 (year/month getters agree), T5 (split concatenates to the canonical number). Presentation dependence of getters (T6) is recorded as an observation only.',
+             note='Formats without a layout row (se.personnummer, it.codicefiscale) get T1/T3 only.',
+             tech='TLA+ calendar and national birth-date layouts (BirthDates.tla) + TLC trace validation', ref='DESIGN.md §4 C12'),
  'C13': dict(text='Runtime.tla models one Python process: the numdb cache and the country-module caches with their check/parse/store/use steps, threads, I/O faults, and the dict objects handed to callers. TLC checks PureResults/KeyInjective/CacheMonotone for all interleavings of the code\'s model (2 threads quick, 3 threads thorough) and must REFUTE five hazard variants (publish before fill, basename key, aliased property dicts, cache before membership test, publish-before-fill + fault). TLC-generated call histories (with in-place mutation of every returned container), 16-thread barrier-released first-use rounds and all 70 two-thread hook-level schedules (replayed with a blocking scheduler in the hooks) are executed in fresh interpreters; TLC validates every result against the same call in a pristine interpreter (H1) and every hook event against the cache steps of the spec (A1-A4).',
              note='Hooks: STDNUM_VERIF-guarded, add-only lines at the cache linearization points. Assumes the CPython GIL/import lock; races outside hooked regions are seen only when the stress hits them.',
              tech='TLC model checking of interleavings (Runtime.tla, hazard variants refuted) + TLC-generated histories/schedules replayed + trace validation of hook events and results', ref='DESIGN.md §4 C13'),
